@@ -26,11 +26,13 @@ type provCtx struct {
 	noInline bool
 	// calls records the full names of the functions applied while rendering
 	calls map[string]bool
+	// signCasts: render same-width conversions that change signedness (the value can change)
+	signCasts bool
 	seen  map[ssa.Value]bool
 }
 
 func (c *provCtx) child(env map[*ssa.Parameter]string) *provCtx {
-	return &provCtx{p: c.p, env: env, depth: c.depth + 1, leaf: c.leaf, noInline: c.noInline, calls: c.calls, seen: map[ssa.Value]bool{}}
+	return &provCtx{p: c.p, env: env, depth: c.depth + 1, leaf: c.leaf, noInline: c.noInline, calls: c.calls, signCasts: c.signCasts, seen: map[ssa.Value]bool{}}
 }
 
 func alts(ss []string) string {
@@ -120,6 +122,11 @@ func (c *provCtx) val(v ssa.Value) string {
 			fb, _, _ := intBits(from)
 			tb, _, _ := intBits(to)
 			if tb >= fb {
+				_, fs, _ := intBits(from)
+				_, ts, _ := intBits(to)
+				if c.signCasts && (tb == fb && fs != ts || tb > fb && fs && !ts) {
+					return fmt.Sprintf("signcast<%s>(%s)", types.TypeString(to, relQual), in)
+				}
 				return in // widening or same-width reinterpretation: no bit is lost
 			}
 			return fmt.Sprintf("trunc%d(%s)", tb, in)
